@@ -18,6 +18,10 @@ NA = {
 }
 
 CHECKS = {
+ "C01": dict(engine="netsim", technique="deterministic simulation with fault injection on the tap: valid simulated traffic through truncation, bit flips, IHL/total-length/data-offset/protocol/ethertype/version rewrites, TCP option rewrites, junk, spliced garbage, torn/flipped streams and database text; panic/overflow/hang capture; clean probe compared with a fresh instance under the same simulated clock",
+   text="Exploration with enumerated sub-spaces: seeded faulty histories into the four analyzers (per-packet path and the real packet loop), the incremental ClientHello reader, the HTTP/2 extractor, HttpProcessors and Database::from_str; systematic scenarios enumerate TCP option (kind,len,position) encodings in SYN and SYN+ACK, every truncation length and single-bit flips in the first 80 bytes of generated frames and of the frames of the four bundled pcaps. The build has overflow checks and debug assertions on, so arithmetic overflow is a panic; a 15 s per-run watchdog reports hangs.",
+   note="For the purely input-quantified half ('all byte strings') this is seeded mutation of valid traffic plus the listed enumerations, not a proof. The worker-path half (dispatch hashing, worker liveness) is exercised by the poolsim engine.",
+   design="4/C01"),
  "C07": dict(engine="netsim", technique="deterministic simulation: seeded order-preserving interleavings of 2..8 generated connections (TCP handshakes with timestamps, segmented TLS hellos, HTTP/1, HTTP/2 incl. hostile HPACK blocks, garbage) on one analyzer instance under a simulated clock; per-connection per-packet equivalence with the isolated replay at the same simulated times",
    text="Exploration over merge orders (uniform, round-robin, bursts, hostile-first), endpoint sharing (same client other port, same server many clients, swapped roles), all four analyzers and both drive paths. A clean run shows that on everything explored no connection's results were suppressed, altered or leaked by other traffic.",
    note="Fault-free configuration: capacity >= 2N+4 and timelines inside every TTL, as the statement conditions on the configured capacity; isolated and interleaved runs read the same simulated clock. Differential against the same code run alone.",
